@@ -52,4 +52,31 @@ def check_C11(ctx):
                   assumptions=TRUSTED)
 
 
-CHECKS = {"C11": check_C11}
+
+def validate_by_module(ctx, obs, default="TraceRender"):
+    groups = {}
+    for o in obs:
+        groups.setdefault(o.get("tm", default), []).append(o)
+    for module, os_ in groups.items():
+        ctx.validate(os_, module=module)
+
+
+# --------------------------------------------------------------------------- C09
+
+C09_LAWS = ["EqReflexive", "EqSymmetric", "NilOnlyNil", "UnlikeNeverEqual", "UnlikeNeverOrdered", "NilNeverOrdered",
+            "LessAsymmetric", "Trichotomy", "ArraysElementwise", "ContainsMembership", "TruthyOnlyNilFalse"]
+
+
+def check_C09(ctx):
+    big = "FALSE" if ctx.quick else "TRUE"
+    cases, _ = ctx.tlc_mc("MC_C09", mc_cfg({"Big": big}, C09_LAWS + ["EmitCase"]))
+    obs = ctx.run_cases(cases)
+    validate_by_module(ctx, obs)
+    return finish(ctx, rule="every ordered pair of the value universe of MC_C09 (Big=%s) x 9 operators in both operand "
+                            "orders, as `if` conditions (bit table validated by TraceC09: decided bits + coherence laws "
+                            "on the observed table) and as objects (TraceRender); TLC also checks the coherence laws on "
+                            "the specification's own operators for every pair" % big,
+                  assumptions=TRUSTED)
+
+
+CHECKS = {"C11": check_C11, "C09": check_C09}
